@@ -52,7 +52,8 @@ def register(rng):
         sc.append([F(_vals(rng, n)), B([rng.random() < 0.5 for _ in range(n)])])
     E("rel:mask-select", "a, m", "(a[m], len(a[m]), a[m].sum(), a[m].shape[0])", sc, ["masked.sum"], cat="rel", kind="rel", modes=["sym"], props=[None, "C13"])
     E("rel:mask-select:positions", "a, m", "np.arange(len(a))[m]", sc[:30], ["np.arange"], cat="rel", kind="rel", modes=["sym"])
-    E("rel:mask-select:rows", "a, m", "(a[m], a[m][:, 0], a[m].sum(axis=0), a[m].mean(axis=0) if m.any() else None)", [[F([_vals(rng, 2) for _ in c[1]["__nd__"]]), c[1]] for c in sc[:30]], ["masked.sum", "masked.mean", "arr.any"], cat="rel", kind="rel", modes=["sym"])
+    E("rel:mask-select:rows", "a, m", "(a[m], a[m][:, 0], a[m].sum(axis=0), m.any())", [[F([_vals(rng, 2) for _ in c[1]["__nd__"]]), c[1]] for c in sc[:30]], ["masked.sum", "arr.any"], cat="rel", kind="rel", modes=["sym"])
+    E("rel:mask-select:rows-mean", "a, m", "(a[m].mean(axis=0), a[m].mean())", [[F([_vals(rng, 2) for _ in c[1]["__nd__"]]), c[1]] for c in sc[:30] if any(c[1]["__nd__"])], ["masked.mean"], cat="rel", kind="rel", modes=["sym"])
     E("rel:mask-select:compare", "a, x", "(a[a > x], a[(a > x) & (a < x + 2)], (a > x).sum())", [[F(_vals(rng, rng.randint(1, 8))), rng.choice([0.0, 0.5, -1.0])] for _ in range(30)], ["arr.sum"], cat="rel", kind="rel", modes=["sym"])
     E("rel:mask-select:enumerate-pattern", "d, m", "[j * x for j, x in enumerate(d[m])]", sc[:10], ["enumerate"], cat="rel", kind="rel", modes=["conc"])
     E("rel:filtered-comprehension", "L, x", "[v * 2 for v in L if v > x]", [[_vals(rng, rng.randint(0, 6)), 0.0] for _ in range(20)], [], cat="rel", kind="rel", modes=["conc"])
